@@ -63,6 +63,9 @@ inductive Fun
   /-- a slot stored by value inside an adaptor (`retype_return`, `hide_return`):
       its `blocked_` flag and its functor (`none`: the inner slot was empty) -/
   | nest (blocked : Bool) (inner : Option Fun)
+  /-- user functor `fid` that *owns* objects through `std::shared_ptr`: trackable objects `ownsT` and
+      scoped connections `ownsK` die when the last functor copy holding them is destroyed -/
+  | owner (fid : Nat) (ownsT ownsK : List Nat)
 deriving Repr, Inhabited
 
 /-- every trackable object the functor is registered in (directly or through an inner slot's rep
@@ -72,6 +75,18 @@ def Fun.tracks : Fun → List Nat
   | .fwd _ ts => ts
   | .nest _ none => []
   | .nest _ (some f) => f.tracks
+  | .owner _ _ _ => []
+
+/-- the trackable objects / scoped connections this functor value keeps alive -/
+def Fun.ownsT : Fun → List Nat
+  | .owner _ ts _ => ts
+  | .nest _ (some f) => f.ownsT
+  | _ => []
+
+def Fun.ownsK : Fun → List Nat
+  | .owner _ _ ks => ks
+  | .nest _ (some f) => f.ownsK
+  | _ => []
 
 /-- number of live copies of user functor `fid` inside this functor value -/
 def Fun.count (fid : Nat) : Fun → Nat
@@ -79,12 +94,14 @@ def Fun.count (fid : Nat) : Fun → Nat
   | .fwd _ _ => 0
   | .nest _ none => 0
   | .nest _ (some f) => f.count fid
+  | .owner f _ _ => if f = fid then 1 else 0
 
 def Fun.countAll : Fun → Nat
   | .leaf _ _ => 1
   | .fwd _ _ => 0
   | .nest _ none => 0
   | .nest _ (some f) => f.countAll
+  | .owner _ _ _ => 1
 
 /-- `slot_rep`: `call_ ≠ nullptr`, `functor_` -/
 structure Rep where
@@ -184,7 +201,7 @@ deriving Repr, Inhabited
 
 inductive FSpec
   | fn (fid : Nat) | mem (fid t : Nat) | trk (fid t1 : Nat) (t2 : Option Nat) | bref (fid t : Nat)
-  | nest (s : Nat) | fwd (g : Nat) | bad
+  | nest (s : Nat) | fwd (g : Nat) | ownT (fid t : Nat) | ownK (fid k : Nat) | bad
 deriving Repr, Inhabited
 
 inductive Op
@@ -230,6 +247,8 @@ structure St where
   C : List (Nat × Option Nat) := []    -- connection ↦ cell id it points at
   K : List (Nat × Option Nat) := []    -- scoped_connection ↦ its connection
   impls : List (Nat × Impl) := []
+  ownedT : List Nat := []              -- trackable objects kept alive only by owning functors
+  ownedK : List (Nat × Option Nat) := []  -- scoped connections owned by functors ↦ their connection
   next : Nat := 1
   depth : Nat := 0
   steps : Nat := 0                     -- operations executed so far
@@ -252,7 +271,7 @@ def St.fresh (s : St) : Nat × St := (s.next, { s with next := s.next + 1 })
 /-- every `weak_raw_ptr` registered in the rep of cell `cid` is nulled (`~slot_rep → ~trackable`) -/
 def nullConns (s : St) (cid : Nat) : St :=
   let f : Option Nat → Option Nat := fun p => if p = some cid then none else p
-  { s with C := amap s.C f, K := amap s.K f }
+  { s with C := amap s.C f, K := amap s.K f, ownedK := amap s.ownedK f }
 
 def nullConnsList (s : St) (cids : List Nat) : St := cids.foldl nullConns s
 
@@ -425,6 +444,17 @@ def mkFun (s : St) (isVoid : Bool) : FSpec → Except String (Fun × St)
       else
         let s := { s with G := aset s.G g { h with everFwd := true } }
         .ok (.fwd h.obj (if h.fl.isTrackable then [h.trk] else []), s)
+  | .ownT fid t =>
+    -- the functor takes the trackable into a `shared_ptr`: the name is released
+    match aget s.T t with
+    | none => .error "dead"
+    | some o => .ok (.owner fid [o] [], { s with T := adel s.T t, ownedT := o :: s.ownedT })
+  | .ownK fid k =>
+    match aget s.K k with
+    | none => .error "dead"
+    | some p =>
+      let (id, s) := s.fresh
+      .ok (.owner fid [] [id], { s with K := adel s.K k, ownedK := (id, p) :: s.ownedK })
   | .bad => .error "badtype"
 
 /-! ## iterator buffer (`slot_iterator_buf`) -/
@@ -485,6 +515,50 @@ def connBlock (s : St) (p : Option Nat) (b : Bool) : St :=
     match getCell s cid with
     | none => s
     | some (i, _) => updCell s i cid (fun c => { c with slot := { c.slot with blocked := b } })
+
+/-! ## objects owned by functors: destruction of the last owning functor copy -/
+
+def SlotB.holdsT (s : SlotB) (o : Nat) : Bool :=
+  match s.rep with
+  | some { fn := some f, .. } => f.ownsT.contains o
+  | _ => false
+
+def SlotB.holdsK (s : SlotB) (k : Nat) : Bool :=
+  match s.rep with
+  | some { fn := some f, .. } => f.ownsK.contains k
+  | _ => false
+
+def heldT (s : St) (o : Nat) : Bool :=
+  s.S.any (fun p => p.2.slot.holdsT o) || s.impls.any (fun p => p.2.cells.any (fun c => c.slot.holdsT o))
+
+def heldK (s : St) (k : Nat) : Bool :=
+  s.S.any (fun p => p.2.slot.holdsK k) || s.impls.any (fun p => p.2.cells.any (fun c => c.slot.holdsK k))
+
+/-- one owned object whose last owning functor copy is gone dies: `~Trk` (→ `notify_callbacks()`) or
+    `~scoped_connection` (→ `disconnect()`) -/
+def collectStep (s : St) : Option St :=
+  match s.ownedT.find? (fun o => !heldT s o) with
+  | some o => some (invalidateTrackable { s with ownedT := s.ownedT.filter (· ≠ o) } o)
+  | none =>
+    match s.ownedK.find? (fun p => !heldK s p.1) with
+    | some (k, p) =>
+      let s := { s with ownedK := s.ownedK.filter (fun q => q.1 ≠ k) }
+      some (match p with
+        | some cid => disconnectCell s cid
+        | none => s)
+    | none => none
+
+def collectN : Nat → St → St
+  | 0, s => s
+  | n+1, s =>
+    match collectStep s with
+    | some s' => collectN n s'
+    | none => s
+
+/-- run the destructors of every owned object that no functor copy holds any more (each step removes
+    one owned object, so `ownedT.length + ownedK.length` steps reach the fixpoint);
+    the identity when nothing is owned -/
+def collect (s : St) : St := collectN (s.ownedT.length + s.ownedK.length) s
 
 /-- live copies of user functor `fid` held by the library -/
 def liveCount (s : St) (fid : Nat) : Nat :=
@@ -911,7 +985,7 @@ def invokeFun : Nat → Prog → St → Fun → Nat → Option (St × Outcome ×
   | 0, _, _, _, _ => none
   | f+1, P, s, fn, arg =>
     match fn with
-    | .leaf fid _ =>
+    | .leaf fid _ | .owner fid _ _ =>
       let s := s.log (.call s.depth fid arg)
       match aget P.bodies fid with
       | none => some (s, .ok, resultOf fid arg)
@@ -946,8 +1020,8 @@ def execLine : Nat → Prog → St → Line → Option (St × Outcome)
     let s := { s with steps := s.steps + 1 }
     match execOp f P s l.op with
     | none => none
-    | some (s, .error _) => some (s.log (.res s.depth l.text "exc"), .exc)
-    | some (s, .ok r) => some (s.log (.res s.depth l.text r), .ok)
+    | some (s, .error _) => some (collect (s.log (.res s.depth l.text "exc")), .exc)
+    | some (s, .ok r) => some (collect (s.log (.res s.depth l.text r)), .ok)
 
 /-- `emitter::emit(impl_, a)` for a signal of flavour `fl` whose handle currently has `impl` -/
 def emitImpl : Nat → Prog → St → Flavour → Option Nat → Nat → Strat → Option (St × Outcome × Nat)
@@ -981,7 +1055,7 @@ def emitImpl : Nat → Prog → St → Flavour → Option Nat → Nat → Strat 
             let s := match aget s.impls i with
               | none => s
               | some im3 => setImpl s i { im3 with holders := im3.holders - 1 }
-            some (gcImpl s i, o, v)
+            some (collect (gcImpl s i), o, v)
 
 /-- the loop of the non-accumulating emitters from cell `cur` to the marker `m`;
     `r` is the value returned by the last invoked slot so far -/
